@@ -5,13 +5,13 @@ WITNESSES = [
          old="        elif space_l == space_u:  # diagonal block", new="        else:"),
     dict(id="c06-cascade-mixed-keys", prop="C06", file=S, expect="R06a",
          old="            if spin_l < spin_u:\n                return True", new="            if spin_l < space_u:\n                return True"),
-    dict(id="c06-cascade-le", prop="C06", file=S, expect="R06a",
+    # since F33 the name keys contain the identity of the index: they are equal only for identical groups, whose exchange
+    # changes nothing (and the diagonal of a bra-ket antisymmetric tensor is zero before the comparison): <= is harmless now
+    dict(id="c06-ok-cascade-le", prop="C06", file=S, expect=None,
          old="                if lower_names < upper_names:", new="                if lower_names <= upper_names:"),
     dict(id="c06-cascade-name-number-lost", prop="C06", file=S, expect="R06a",
-         old="""                lower_names = [(int(s.name[1:]) if s.name[1:] else 0,
-                               s.name[0]) for s in lower]
-                upper_names = [(int(s.name[1:]) if s.name[1:] else 0,
-                               s.name[0]) for s in upper]""",
+         old="""                lower_names = [sort_idx_canonical(s)[2:] for s in lower]
+                upper_names = [sort_idx_canonical(s)[2:] for s in upper]""",
          new="""                lower_names = [s.name[0] for s in lower]
                 upper_names = [s.name[0] for s in upper]"""),
     dict(id="c06-sign-lost", prop="C06", file=S, expect="R06c",
@@ -170,17 +170,18 @@ WITNESSES = [
             if spin_l < spin_u:
                 return True
             elif spin_l == spin_u:  # diagonal spin block
-                # compare the names of indices
-                lower_names = [(int(s.name[1:]) if s.name[1:] else 0,
-                               s.name[0]) for s in lower]
-                upper_names = [(int(s.name[1:]) if s.name[1:] else 0,
-                               s.name[0]) for s in upper]
+                # compare the names of indices (number, letter). Different
+                # indices that share number and letter ('i' and 'i0' or
+                # multiple unregistered indices of the same name) are
+                # distinguished as in sort_idx_canonical.
+                lower_names = [sort_idx_canonical(s)[2:] for s in lower]
+                upper_names = [sort_idx_canonical(s)[2:] for s in upper]
                 if lower_names < upper_names:
                     return True
         return False""",
          new="""        def group_key(group):
             return ([s.space[0] for s in group], [s.spin for s in group],
-                    [(int(s.name[1:] or 0), s.name[0]) for s in group])
+                    [(int(s.name[1:] or 0), s.name[0], s.dummy_index) for s in group])
         return group_key(lower) < group_key(upper)"""),
     # sign as arithmetic factor instead of a branch
     dict(id="c06-ok-new-sign-factor", prop="C06", file=S, expect=None,
@@ -230,6 +231,10 @@ WITNESSES = [
             if bra_ket_sym not in [S.One, S.NegativeOne]:
                 raise Inputerror("Invalid bra ket symmetry given "
                                  f"{bra_ket_sym}. Valid are 0, 1 or -1.")
+            # bra-ket antisymmetry forces the diagonal to vanish:
+            # d^{pq}_{pq} = - d^{pq}_{pq} = 0
+            if bra_ket_sym is S.NegativeOne and list(upper) == list(lower):
+                return S.Zero
             if cls._need_bra_ket_swap(upper, lower):
                 upper, lower = lower, upper  # swap
                 if bra_ket_sym is S.NegativeOne:  # add another -1
@@ -237,6 +242,8 @@ WITNESSES = [
         # import all quantities to sympy""",
          """        bra_ket_sym = sympify(bra_ket_sym)
         upper, lower, swapped = cls._bra_ket_canonical(upper, lower, bra_ket_sym)
+        if swapped is None:
+            return S.Zero
         if swapped and bra_ket_sym is S.NegativeOne:  # add another -1
             sign_u += 1
         # import all quantities to sympy"""),
@@ -252,6 +259,8 @@ WITNESSES = [
         if bra_ket_sym not in [S.One, S.NegativeOne]:
             raise Inputerror("Invalid bra ket symmetry given "
                              f"{bra_ket_sym}. Valid are 0, 1 or -1.")
+        if bra_ket_sym is S.NegativeOne and list(upper) == list(lower):
+            return upper, lower, None  # the diagonal vanishes
         if cls._need_bra_ket_swap(upper=upper, lower=lower):
             return lower, upper, True
         return upper, lower, False
@@ -263,6 +272,103 @@ WITNESSES = [
     dict(id="c06-ok-term-wrapper-dict-merge", prop="C06", file=E, expect=None,
          old="        real_term = Mul(*(o.make_real(return_sympy=True)\n                          for o in self.objects))\n        if return_sympy:\n            return real_term\n        assumptions = self.assumptions\n        assumptions['real'] = True\n        return Expr(real_term, **assumptions)",
          new="        real_term = Mul(*(o.make_real(return_sympy=True)\n                          for o in self.objects))\n        if return_sympy:\n            return real_term\n        return Expr(real_term, **{**self.assumptions, 'real': True})"),
+    # ------------------------------------------------------------------ round 4: private helpers are not anchors
+    # every private method that applies the declared symmetry renamed (all levels)
+    dict(id="c06-ok-private-apply-renamed", prop="C06", file=E, expect=None,
+         edits=[("_apply_tensor_braket_sym", "_add_declared_braket_symmetry")] * 11),
+    # the bra-ket comparison as a module level private function, early returns (cf. refactoring 4D2)
+    dict(id="c06-ok-swap-module-function", prop="C06", file=S, expect=None, edits=[
+        ("""class SymbolicTensor(Expr):
+    \"\"\"Base class for symbolic tensors.\"\"\"
+""", """def _lower_group_first(upper, lower) -> bool:
+    if len(upper) != len(lower):
+        raise NotImplementedError("Bra Ket symmetry only implemented "
+                                  "for tensors with an equal amount "
+                                  "of upper and lower indices.")
+    for attr in (lambda s: s.space[0], lambda s: s.spin,
+                 lambda s: (int(s.name[1:]) if s.name[1:] else 0, s.name[0], s.dummy_index)):
+        key_u, key_l = [attr(s) for s in upper], [attr(s) for s in lower]
+        if key_l != key_u:
+            return key_l < key_u
+    return False
+
+
+class SymbolicTensor(Expr):
+    \"\"\"Base class for symbolic tensors.\"\"\"
+"""),
+        ("            if cls._need_bra_ket_swap(upper, lower):\n                upper, lower = lower, upper  # swap\n                if bra_ket_sym is S.NegativeOne:  # add another -1",
+         "            if _lower_group_first(upper, lower):\n                upper, lower = lower, upper  # swap\n                if bra_ket_sym is S.NegativeOne:  # add another -1"),
+        ("            if cls._need_bra_ket_swap(upper, lower):\n                upper, lower = lower, upper  # swap\n                if bra_ket_sym is S.NegativeOne:\n                    negative_sign = True",
+         "            if _lower_group_first(upper, lower):\n                upper, lower = lower, upper  # swap\n                if bra_ket_sym is S.NegativeOne:\n                    negative_sign = True")]),
+    # the Term level of the symmetry application as a module level private function that looks into the objects itself
+    dict(id="c06-ok-term-level-module-function", prop="C06", file=E, expect=None, edits=[
+        ("class Expr(Container):\n    \"\"\"\n    Wrapper for an algebraic expression.",
+         "def _term_with_braket_sym(term):\n    factors = []\n    for o in term.objects:\n        if o.sympy.is_number:  # nothing to canonicalise\n            factors.append(o.sympy)\n        else:\n            factors.append(o._apply_tensor_braket_sym(return_sympy=True))\n    return Mul(*factors)\n\n\nclass Expr(Container):\n    \"\"\"\n    Wrapper for an algebraic expression."),
+        ("        expr_with_sym = Add(*[t._apply_tensor_braket_sym(return_sympy=True)\n                              for t in self.terms])",
+         "        expr_with_sym = Add(*[_term_with_braket_sym(t) for t in self.terms])")]),
+    # breaking counterparts
+    dict(id="c06-swap-module-function-names-only", prop="C06", file=S, expect=["R06a", "R06b"], edits=[
+        ("""class SymbolicTensor(Expr):
+    \"\"\"Base class for symbolic tensors.\"\"\"
+""", """def _lower_group_first(upper, lower) -> bool:
+    if len(upper) != len(lower):
+        raise NotImplementedError("Bra Ket symmetry only implemented "
+                                  "for tensors with an equal amount "
+                                  "of upper and lower indices.")
+    for attr in (lambda s: s.space[0], lambda s: s.spin, lambda s: s.name[0]):
+        key_u, key_l = [attr(s) for s in upper], [attr(s) for s in lower]
+        if key_l != key_u:
+            return key_l < key_u
+    return False
+
+
+class SymbolicTensor(Expr):
+    \"\"\"Base class for symbolic tensors.\"\"\"
+"""),
+        ("            if cls._need_bra_ket_swap(upper, lower):\n                upper, lower = lower, upper  # swap\n                if bra_ket_sym is S.NegativeOne:  # add another -1",
+         "            if _lower_group_first(upper, lower):\n                upper, lower = lower, upper  # swap\n                if bra_ket_sym is S.NegativeOne:  # add another -1")]),
+    dict(id="c06-term-level-module-function-skips-polynoms", prop="C06", file=E, expect=["R06e", "R06f"], edits=[
+        ("class Expr(Container):\n    \"\"\"\n    Wrapper for an algebraic expression.",
+         "def _term_with_braket_sym(term):\n    factors = []\n    for o in term.objects:\n        if not isinstance(o.base, SymbolicTensor):  # nothing to canonicalise\n            factors.append(o.sympy)\n        else:\n            factors.append(o._apply_tensor_braket_sym(return_sympy=True))\n    return Mul(*factors)\n\n\nclass Expr(Container):\n    \"\"\"\n    Wrapper for an algebraic expression."),
+        ("        expr_with_sym = Add(*[t._apply_tensor_braket_sym(return_sympy=True)\n                              for t in self.terms])",
+         "        expr_with_sym = Add(*[_term_with_braket_sym(t) for t in self.terms])")]),
+    # ------------------------------------------------------------------ round 5: repaired defects F32, F33
+    dict(id="c06-F32-revert", prop="C06", file=S, expect=["R06b", "R06c"], edits=[("""            # bra-ket antisymmetry forces the diagonal to vanish:
+            # d^{pq}_{pq} = - d^{pq}_{pq} = 0
+            if bra_ket_sym is S.NegativeOne and list(upper) == list(lower):
+                return S.Zero
+""", "")] * 2),
+    dict(id="c06-F32-revert-symmetric-only", prop="C06", file=S, expect=["R06b", "R06c"],
+         old="""            # bra-ket antisymmetry forces the diagonal to vanish:
+            # d^{pq}_{pq} = - d^{pq}_{pq} = 0
+            if bra_ket_sym is S.NegativeOne and list(upper) == list(lower):
+                return S.Zero
+            if cls._need_bra_ket_swap(upper, lower):
+                upper, lower = lower, upper  # swap
+                if bra_ket_sym is S.NegativeOne:
+                    negative_sign = True""",
+         new="""            if cls._need_bra_ket_swap(upper, lower):
+                upper, lower = lower, upper  # swap
+                if bra_ket_sym is S.NegativeOne:
+                    negative_sign = True"""),
+    dict(id="c06-ok-F32-twin", prop="C06", file=S, expect=None, edits=[
+        ("            if bra_ket_sym is S.NegativeOne and list(upper) == list(lower):\n                return S.Zero\n",
+         "            diagonal = len(upper) == len(lower) and all(u is l for u, l in zip(upper, lower))\n            if diagonal and bra_ket_sym == -1:\n                return S.Zero\n")] * 2),
+    dict(id="c06-F33-revert", prop="C06", file=S, expect=["R06a", "R06b"],
+         old="""                lower_names = [sort_idx_canonical(s)[2:] for s in lower]
+                upper_names = [sort_idx_canonical(s)[2:] for s in upper]""",
+         new="""                lower_names = [(int(s.name[1:]) if s.name[1:] else 0,
+                               s.name[0]) for s in lower]
+                upper_names = [(int(s.name[1:]) if s.name[1:] else 0,
+                               s.name[0]) for s in upper]"""),
+    dict(id="c06-ok-F33-twin", prop="C06", file=S, expect=None,
+         old="""                lower_names = [sort_idx_canonical(s)[2:] for s in lower]
+                upper_names = [sort_idx_canonical(s)[2:] for s in upper]""",
+         new="""                def name_key(s):
+                    number = int(s.name[1:]) if s.name[1:] else 0
+                    return (number, s.name[0], s.dummy_index)
+                lower_names = list(map(name_key, lower))
+                upper_names = list(map(name_key, upper))"""),
     # ------------------------------------------------------------------ breaking witnesses for the new checks
     dict(id="c06-amplitude-own-ordering", prop="C06", file=S, expect=["R06a", "R06b"],
          old="""    @property
@@ -286,6 +392,10 @@ WITNESSES = [
             if bra_ket_sym not in [S.One, S.NegativeOne]:
                 raise Inputerror("Invalid bra ket symmetry given "
                                  f"{bra_ket_sym}. Valid are 0, 1 or -1.")
+            # bra-ket antisymmetry forces the diagonal to vanish:
+            # d^{pq}_{pq} = - d^{pq}_{pq} = 0
+            if bra_ket_sym is S.NegativeOne and list(upper) == list(lower):
+                return S.Zero
             if cls._need_bra_ket_swap(upper, lower):
                 upper, lower = lower, upper  # swap
                 if bra_ket_sym is S.NegativeOne:  # add another -1
@@ -295,6 +405,8 @@ WITNESSES = [
             if bra_ket_sym not in [S.Zero, S.One, S.NegativeOne]:
                 raise Inputerror("Invalid bra ket symmetry given "
                                  f"{bra_ket_sym}. Valid are 0, 1 or -1.")
+            if bra_ket_sym is S.NegativeOne and list(upper) == list(lower):
+                return S.Zero
             if len(upper) == len(lower) and cls._need_bra_ket_swap(upper, lower):
                 upper, lower = lower, upper  # swap
                 if bra_ket_sym is S.NegativeOne:  # add another -1
@@ -324,6 +436,9 @@ WITNESSES = [
     dict(id="c06-rename-guard", prop="C06", file=E, expect="R06e",
          old="        if not isinstance(current, str) or not isinstance(new, str):\n            raise Inputerror(\"Old and new tensor name need to be provided as \"\n                             \"strings.\")\n        renamed = 0",
          new="        renamed = 0"),
+    # Term containers are views (expression, position): taken before the symmetry is applied they read the re-canonicalised
+    # content, but bra-ket partners that the symmetry identifies are collected into one summand, so the stale positions
+    # no longer enumerate the summands (x^b_i + x^i_b -> 2 x^i_b is processed twice)
     dict(id="c06-makereal-terms-before-symmetry", prop="C06", file=E, expect=["R06e", "R06f"], edits=[
         ("        self._real = True\n        sym_tensors = self._sym_tensors\n", "        self._real = True\n        terms = self.terms\n        sym_tensors = self._sym_tensors\n"),
         ("        self._expr = Add(*[t.make_real(return_sympy=True)\n                           for t in self.terms])", "        self._expr = Add(*[t.make_real(return_sympy=True)\n                           for t in terms])")]),
